@@ -45,7 +45,9 @@ ASSUMPTIONS = ["the token-level theorems speak about token rows; text -> rows is
                "(Props/C12/Text.lean: opb_text_roundtrip, numbers up to 4300 digits) and for the LaTeX writer's own output "
                "(Props/C12/LatexText.lean: latex_text_lex, latex_text_rows_*; names without white space); the lexers on other texts are compared, not proven",
                "typographic meaning of the LaTeX (alignment blanks, what \\overline covers) is not part of any theorem"]
-NOTES = ["D14 (fixed 81c9102): header value / label with a line break -> non-comment line in the OPB file; corpus cls linebreak keeps exercising it",
+NOTES = ["D46-s6 (known finding): to_file(..., 'latex') raises KeyError for a formula whose header has no 'description' entry (the user deleted it "
+         "or replaced the header); str(F) and the DIMACS / OPB writers cope; corpus cls nodescription keeps exercising it",
+         "D14 (fixed 81c9102): header value / label with a line break -> non-comment line in the OPB file; corpus cls linebreak keeps exercising it",
          "D31 (fixed 47b0608): LaTeX omitted every coefficient <= 1, so a zero coefficient was shown as 1; corpus cls zerocoef keeps exercising it",
          "D30 (fixed 8a26dc4): guess_output_format raised TypeError for a file object whose .name is an int; corpus cls fdname"]
 
@@ -272,7 +274,10 @@ def build_wlatex(suite, info):
             return None
         return iolib.latex_check_body(state["body"], F, names, split, compact and not is_opb(F))
 
-    return Case(suite, r, impl, oracle, cls=latex_cls(F, names, info), nontrivial=len(F) > 0, info=info)
+    cls = latex_cls(F, names, info)
+    if suite == "wlatexdoc" and "description" not in dict(header_of(R)):
+        cls = "nodescription"        # stable label of finding D46-s6: the document writer needs header['description']
+    return Case(suite, r, impl, oracle, cls=cls, nontrivial=len(F) > 0, info=info)
 
 
 def simple_names(names):
